@@ -1,7 +1,7 @@
 (** HeapLive.v — C09: destruction does not change what is reachable: [alive (gc s) = alive s]; hence right after any call
     that may destroy objects, every variable listed as equivalent is alive in the resulting state. *)
 From Coq Require Import List String Bool Arith PeanoNat Lia.
-From LC Require Import HeapDefs HeapBase HeapInv.
+From LC Require Import HeapDefs HeapBase HeapInv HeapProofs.
 Import ListNotations.
 
 Lemma add_all_incl_acc : forall new acc x, In x acc -> In x (add_all new acc).
@@ -77,3 +77,80 @@ Qed.
 (** destruction is idempotent on what is observed: children of the living are kept, lists of the dead are empty *)
 Theorem children_after_gc : forall s K k, children (gc s) K k = if alive (gc s) k then children s K k else [].
 Proof. intros s K k. rewrite alive_gc. unfold gc. rewrite gc_children. reflexivity. Qed.
+
+(* ------------------------------------------------------------------------------------------------ every call ends with destruction *)
+
+Section Shape.
+  Variable seq : state -> nat -> nat -> bool.
+
+  Definition settled (s s' : state) : Prop := s' = s \/ exists s1, s' = gc s1.
+
+  Lemma fin_remove_shape : forall s r s' ret, fin_remove s r = Ok s' ret -> settled s s'.
+  Proof. intros s r s' ret H. destruct r; cbn in H; inversion H; subst; [right; eauto|left; reflexivity]. Qed.
+  Lemma fin_take_shape : forall s r s' ret, fin_take s r = Ok s' ret -> settled s s'.
+  Proof. intros s r s' ret H. destruct r as [[? ?]| |]; cbn in H; inversion H; subst; [right; eauto|left; reflexivity]. Qed.
+  Lemma fin_replace_shape : forall s r s' ret, fin_replace s r = Ok s' ret -> settled s s'.
+  Proof. intros s r s' ret H. destruct r as [[? ?]| |]; cbn in H; inversion H; subst; [right; eauto|left; reflexivity]. Qed.
+  Lemma add_plain_shape : forall s K k x s' ret, add_plain true seq s K k x = Ok s' ret -> settled s s'.
+  Proof. intros s K k x s' ret H. destruct x; cbn in H; inversion H; subst; [right; eauto|left; reflexivity]. Qed.
+  Lemma add_component_shape : forall s k x s' ret, add_component true seq s k x = Ok s' ret -> settled s s'.
+  Proof.
+    intros s k x s' ret H. unfold add_component in H. destruct x as [c|]; [|inversion H; left; reflexivity].
+    destruct (kind_is s k KModel); [inversion H; right; eauto|].
+    destruct (Nat.eqb k c); [inversion H; left; reflexivity|].
+    destruct (has_ancestor s (fuel_of s) k c) as [[|]|]; inversion H; subst; [left; reflexivity|right; eauto].
+  Qed.
+
+  (** a call either leaves the state as it was (refusal) or ends with the destruction of what is unreferenced *)
+  Theorem step_settled : forall s o s' r, step true seq s o = Ok s' r -> settled s s'.
+  Proof.
+    intros s o s' r H. destruct o; cbn [step] in H;
+      match type of H with (if ?c then _ else _) = _ => destruct c; [|inversion H; left; reflexivity] end;
+      try (eapply fin_remove_shape; eassumption); try (eapply fin_take_shape; eassumption);
+      try (eapply fin_replace_shape; eassumption); try (eapply add_plain_shape; eassumption);
+      try (eapply add_component_shape; eassumption);
+      try (inversion H; subst; right; eauto; fail).
+    - (* RemoveComponentPtr *) destruct c as [x|]; [eapply fin_remove_shape; eassumption|].
+      destruct deep; [|inversion H; left; reflexivity].
+      destruct (with_deep s true (fun _ : nat => @LRefused state) k); inversion H; left; reflexivity.
+    - destruct v as [x|]; [eapply fin_remove_shape; eassumption|inversion H; left; reflexivity].
+    - destruct r0 as [x|]; [eapply fin_remove_shape; eassumption|inversion H; left; reflexivity].
+    - destruct u as [x|]; [eapply fin_remove_shape; eassumption|inversion H; left; reflexivity].
+    - destruct a as [x|]; [|inversion H; left; reflexivity]. destruct b as [y|]; [|inversion H; left; reflexivity].
+      destruct (add_equivalence s x y). inversion H; right; eauto.
+    - destruct a as [x|]; [|inversion H; left; reflexivity]. destruct b as [y|]; [|inversion H; left; reflexivity].
+      destruct (add_equivalence s x y). inversion H; right; eauto.
+    - destruct a as [x|]; [|inversion H; left; reflexivity]. destruct b as [y|]; [|inversion H; left; reflexivity].
+      destruct (remove_equivalence s x y). inversion H; right; eauto.
+  Qed.
+
+  (** what an observer sees is what is stored: every listed equivalent variable and every recorded parent is alive *)
+  Definition Clean (s : state) : Prop :=
+    (forall a b, In b (eqs_of s a) -> alive s b = true) /\ (forall x p, parent_of s x = Some p -> alive s p = true).
+
+  Lemma clean_gc : forall s, Clean (gc s).
+  Proof.
+    intros s. split.
+    - intros a b H. apply (eqs_alive_after_gc s a b H).
+    - intros x p H. eapply parent_alive_after_gc; eauto.
+  Qed.
+
+  Theorem step_clean : forall s o s' r, Clean s -> step true seq s o = Ok s' r -> Clean s'.
+  Proof.
+    intros s o s' r C H. destruct (step_settled _ _ _ _ H) as [->|[s1 ->]]; [assumption|apply clean_gc].
+  Qed.
+
+  Lemma clean_init : forall u, Clean (init u).
+  Proof.
+    intros u. split.
+    - intros a b H. unfold eqs_of in H. rewrite HeapProofs.getd_init in H. destruct (nth_error u a); destruct H.
+    - intros x p H. unfold parent_of in H. rewrite HeapProofs.getd_init in H. destruct (nth_error u x); discriminate.
+  Qed.
+
+  (** equivalence never yields destroyed variables, parent() never a destroyed parent: for every history, carve-out or not *)
+  Theorem run_clean : forall ops s s', Clean s -> run true seq s ops = Some s' -> Clean s'.
+  Proof.
+    induction ops as [|o t IH]; intros s s' C H; cbn in H; [inversion H; subst; assumption|].
+    destruct (step true seq s o) as [s1 r|] eqn:E; [|discriminate]. eapply IH; [eapply step_clean; eauto|exact H].
+  Qed.
+End Shape.
